@@ -2,16 +2,18 @@ SPECIFICATION Spec
 CONSTANTS
   Mode = "tree"
   MCFields = {"time_begin", "facecolor"}
-  MCValues = {"a"}
-  MCSub = ""
-  WithReplace = FALSE
+  MCValues = {"a", "b"}
+  MCSub = "reduced"
+  WithReplace = TRUE
   DEV_CachedSubParams = FALSE
-  MaxSets = 2
+  MaxSets = 3
   WMax = 6
   TMax = 8
 PROPERTY PropContract
 INVARIANT InvIdempotent
-INVARIANT InvCommute
 INVARIANT InvRootReaches
+INVARIANT InvCommute
 INVARIANT InvLastWins
+INVARIANT InvSetAfterReplace
+INVARIANT InvReplaceAfterSet
 INVARIANT InvTable
